@@ -35,6 +35,9 @@ def check(ck):
     r12_5(ck)
     from . import c15
     c15.r15_9(ck, rule='R12.6')
+    from . import helpers as H
+    ck.rule('R12.7', 'assoc_path (embedding of a row) keeps its recursion skeleton')
+    H.assoc_path_shape(ck, 'R12.7')
 
 
 def r12_1(ck):
